@@ -296,7 +296,18 @@ func keyCredentialChain(pool []*knownBlob, order []int, rng *rand.Rand, tag stri
 				history = "parsed+checked " + kb.name
 			}
 		case 1:
-			// next iteration parses another genuine blob right away (big-then-small etc.)
+			// blobs cut short (refused somewhere along the entries) in between; the next iteration
+			// parses another genuine blob right away (big-then-small etc.)
+			for _, cut := range []int{len(kb.blob) - 1, len(kb.blob) / 2, 7, 4, 0} {
+				if cut >= 0 && cut < len(kb.blob) {
+					quietGuard(func() { k.FromBytes(append([]byte{}, kb.blob[:cut]...)) })
+					cutShort.Add(1)
+				}
+			}
+			history = "parsed+checked " + kb.name + ", then copies of it cut short"
+			if parseGenuine(&k, kb, history, false) {
+				history = "parsed+checked " + kb.name
+			}
 		case 3:
 			// a target that was BUILT (NewKeyCredential computes the hash of its own serialisation)
 			c := pool[order[(s+1)%len(order)]].c
